@@ -176,7 +176,11 @@ Bad10 == { S("$merge:nope"), Single("$replace", S("t.nope")), Single("$merge", S
            Single("$merge", L(<<S("t"), I("1")>>)), Single("$replace", True), Single("$merge", I("1")),
            Mk2("$merge", S("s"), "own", I("1")), L(<<Single("$merge", S("t"))>>),
            L(<<Single("$replace", S("l")), Single("$replace", S("l"))>>),
-           Single("$replace", Single("$path", S("t"))) }
+           Single("$replace", Single("$path", S("t"))),
+           (* several list merges: EVERY one must resolve, not only the last *)
+           L(<<Single("b", I("2")), Single("$merge", S("t.nope")), Single("$merge", S("l"))>>),
+           L(<<Single("$merge", S("nope")), Single("$merge", S("l")), Single("$merge", S("t.w"))>>),
+           L(<<Single("$merge", S("l")), Single("$merge", S("t.nope")), Single("$merge", S("t.w"))>>) }
 (* cross-document forms: the second document is addressed by pattern *)
 Other == Mk2("id", I("2"), "t", Tgt)
 Third == Mk2("id", I("3"), "t", I("0"))
@@ -200,6 +204,7 @@ CrossHost10 == {
 Tmpl10 == Mk3("kind", S("template"), "spec", Mk2("$merge", S("over"), "image", S("app")), "over", Single("replicas", I("1")))
 Consumer10(n, r) == Mk3("name", S(n), "over", Single("replicas", I(r)), "app", Single("$replace", Single("$match", Single("kind", S("template")))))
 CrossBad10 == { Single("$replace", Mk2("$match", Single("id", I("7")), "$path", S("t"))),
+                L(<<Single("$merge", L(<<Single("id", I("7")), S("t"), S("w")>>)), Single("$merge", L(<<Single("id", I("2")), S("t"), S("w")>>))>>),
                 Single("$replace", L(<<Mk2("$invert", True, "id", I("1")), S("t")>>)),
                 Single("$replace", L(<<EmptyMap, S("t")>>)) }
 
